@@ -142,6 +142,14 @@ pub fn judge(h: &History, recs: &[StepRec]) -> Result<u32, Failure> {
                     n.off = off;
                 }
                 n.delay_ms = ((rxd & 0x0F).max(1) as u32) * 1000;
+                // ... and the RX2 data rate, when it is one the region defines for downlinks and the crate
+                // implements (the same validity rule as C11)
+                let dr2 = dl & 0x0F;
+                let region_cfg = h.cfg.region_configuration();
+                let implemented = region_cfg.get_max_payload_length(lorawan_device::region::DR::from(dr2), false, false) > 0;
+                if reg.dr(dr2).is_some() && implemented && !(reg.fixed() && dr2 < 8) {
+                    n.dr2 = Some(dr2);
+                }
             }
             net_rx = Some(n);
         }
